@@ -7,6 +7,7 @@ package main
 import (
 	"fmt"
 	"strings"
+	"time"
 
 	"github.com/crewjam/saml"
 
@@ -119,7 +120,7 @@ type attack struct {
 }
 
 func c01Attacks() []attack {
-	return []attack{
+	out := []attack{
 		{"none", func(x *c01x) {}},
 		{"strip-assertion-signature", func(x *c01x) {
 			b := x.a.Clone()
@@ -457,6 +458,51 @@ func c01Attacks() []attack {
 		{"attacker-reencrypts-genuine", func(x *c01x) { x.replaceSlot(Enc(x.a, 0)) }},
 		{"attacker-encrypts-evil-beside-genuine", func(x *c01x) { x.resp.InsertAt(x.slotIndex(), Enc(x.evil(""), 0)) }},
 	}
+	// a genuine, IdP-signed assertion that is no longer acceptable (an old login of the attacker's own:
+	// expired, for another recipient / audience, answering another request), with the attacker's unsigned
+	// assertion before or after it: a valid signature on one assertion says nothing about its siblings
+	type staleMut struct {
+		name string
+		f    func(s *AssertSpec, x *c01x)
+	}
+	for _, sm := range []staleMut{
+		{"expired", func(s *AssertSpec, x *c01x) {
+			old := sp(fmtMS(x.now/ms*ms - int64(24*time.Hour)))
+			s.NOA = old
+			for i := range s.Confs {
+				s.Confs[i].NOA = old
+			}
+		}},
+		{"other-recipient", func(s *AssertSpec, x *c01x) { s.Confs[0].Recipient = sp("https://other-sp.example.org/saml/acs") }},
+		{"other-audience", func(s *AssertSpec, x *c01x) { s.Auds = []string{"https://other-sp.example.org/saml/metadata"} }},
+		{"other-request", func(s *AssertSpec, x *c01x) { s.Confs[0].IRT = sp("req-0-old") }},
+	} {
+		for _, evilFirst := range []bool{false, true} {
+			sm, evilFirst := sm, evilFirst
+			name := "stale-genuine-" + sm.name + "-then-evil"
+			if evilFirst {
+				name = "evil-then-stale-genuine-" + sm.name
+			}
+			out = append(out, attack{name, func(x *c01x) {
+				s := x.spec("-stale")
+				sm.f(&s, x)
+				b := buildAssertion(s)
+				if x.lay.signAssert {
+					SignInto(b, x.signer)
+				}
+				x.a = b
+				x.replaceSlot(x.cand(b))
+				if evilFirst {
+					x.resp.InsertAt(x.slotIndex(), x.cand(x.evil("")))
+				} else {
+					x.resp.Kids = append(x.resp.Kids, x.cand(x.evil("")))
+				}
+				// the enclosing signatures (if the layout has any) are the attacker's problem: they no longer
+				// cover this content, and the model says so
+			}})
+		}
+	}
+	return out
 }
 
 // outerSig applies f to the outermost genuine signature only (inner Signature bytes are covered by the outer digest)
